@@ -38,7 +38,55 @@ type FileSpec struct {
 	CID     *string `json:"cid,omitempty"`
 	Content []byte  `json:"content"`
 	Fails   bool    `json:"fails,omitempty"`
-	Source  string  `json:"source,omitempty"` // "" / reader | seeker | fs | iofs | tpl
+	Source  string  `json:"source,omitempty"` // "" / reader | seeker | fs | iofs | tpl | flaky
+	FlakyAt int     `json:"flaky_at,omitempty"` // source "flaky": a read-seeker whose first pass fails after this many bytes
+}
+
+// flakySeeker: an io.ReadSeeker over data whose first pass fails (once) after failAt bytes
+type flakySeeker struct {
+	data    []byte
+	pos     int
+	failAt  int
+	tripped bool
+}
+
+var errFlaky = errors.New("transient read error")
+
+func (f *flakySeeker) Read(p []byte) (int, error) {
+	if f.pos >= len(f.data) {
+		return 0, io.EOF
+	}
+	end := f.pos + len(p)
+	if end > len(f.data) {
+		end = len(f.data)
+	}
+	if !f.tripped && end > f.failAt {
+		n := 0
+		if f.failAt > f.pos {
+			n = copy(p, f.data[f.pos:f.failAt])
+		}
+		f.pos += n
+		f.tripped = true
+		return n, errFlaky
+	}
+	n := copy(p, f.data[f.pos:end])
+	f.pos += n
+	return n, nil
+}
+
+func (f *flakySeeker) Seek(off int64, whence int) (int64, error) {
+	switch whence {
+	case io.SeekStart:
+		f.pos = int(off)
+	case io.SeekCurrent:
+		f.pos += int(off)
+	case io.SeekEnd:
+		f.pos = len(f.data) + int(off)
+	}
+	if f.pos < 0 {
+		f.pos = 0
+	}
+	return int64(f.pos), nil
 }
 
 type AddrOp struct {
@@ -200,6 +248,13 @@ func (sp *MsgSpec) Build() (*mail.Msg, []string, error) {
 		}
 		var err error
 		switch f.Source {
+		case "flaky":
+			src := &flakySeeker{data: f.Content, failAt: f.FlakyAt}
+			if f.Attach {
+				m.AttachReadSeeker(f.Name, src, fo...)
+			} else {
+				m.EmbedReadSeeker(f.Name, src, fo...)
+			}
 		case "seeker":
 			if f.Attach {
 				m.AttachReadSeeker(f.Name, bytes.NewReader(f.Content), fo...)
@@ -266,6 +321,11 @@ func (sp *MsgSpec) Build() (*mail.Msg, []string, error) {
 		if modelEnc == "quoted-printable" {
 			modelEnc = "" // WithFileEncoding ignores quoted-printable
 		}
+		if f.Source == "flaky" {
+			// until the source has failed once, the producer writes the first FlakyAt bytes and fails
+			ops = append(ops, "file", encBool(f.Attach), encS(f.Name), encS(f.CType), encS(f.Desc), encS(modelEnc), cid, encS(tbe), encB(f.Content[:f.FlakyAt]), encBool(true))
+			continue
+		}
 		ops = append(ops, "file", encBool(f.Attach), encS(f.Name), encS(f.CType), encS(f.Desc), encS(modelEnc), cid, encS(tbe), encB(f.Content), encBool(f.Fails))
 	}
 	if sp.SMIME != "" {
@@ -293,7 +353,7 @@ func parseAll(m *mail.Msg, a AddrOp) (oks, strs, bares []string) {
 			continue
 		}
 		oks = append(oks, "1")
-		strs = append(strs, ad.String())
+		strs = append(strs, mail.VerifAddressString(ad))
 		bares = append(bares, ad.Address)
 	}
 	return
@@ -381,11 +441,14 @@ func (r renderResult) want() string {
 var ctypes = []string{"text/plain", "text/html", "text/plain", "text/html", "text/x-custom"}
 var charsets = []string{"UTF-8", "ISO-8859-1", "utf-8", "US-ASCII"}
 var fileNames = []string{"file.txt", "image.png", "doc.pdf", "no-extension", "with space.txt", "ümlaut.txt", "a;b=c.txt", "q\"uote.bin", "path/evil.txt",
-	"a-very-long-file-name-that-goes-on-and-on-and-on-for-more-than-fifty-characters.dat", "tab\tname.txt", "ctrl\r\nname.txt", "日本語.txt", ".hidden", "x.UNKNOWNEXT"}
+	"a-very-long-file-name-that-goes-on-and-on-and-on-for-more-than-fifty-characters.dat", "tab\tname.txt", "ctrl\r\nname.txt", "日本語.txt", ".hidden", "x.UNKNOWNEXT",
+	"Квартальный отчёт за 2024 год.pdf", "Übersichtsgrafik der Jahresabschlussprüfung für Österreich.png", "非常に長い日本語のファイル名の例ですよ.txt",
+	"a long, mostly ASCII file name with one ümlaut that needs more than one encoded-word.txt"}
 var genKeys = []string{"Subject", "Organization", "X-Custom", "In-Reply-To", "References", "Importance", "X-Priority", "List-Unsubscribe", "Precedence"}
 var goodAddrs = []string{"alice@example.com", "Bob <bob@example.org>", "\"Last, First\" <lf@example.net>", "Jürgen Müller <jm@example.de>", "\"quoted local\"@example.com",
 	"<carol@example.com>", "dave+tag@sub.example.co.uk", "\"a b>c\"@example.com", "Eve (comment) <eve@example.com>", "=?UTF-8?q?Enc?= <enc@example.com>",
-	"\"Very Long Display Name That Goes On And On And On For Quite A While Indeed\" <long@example.com>"}
+	"\"Very Long Display Name That Goes On And On And On For Quite A While Indeed\" <long@example.com>",
+	"\"Zoë \\\\ Backslash\" <zoe@example.com>", "\"Quote \\\" and \\\\ in ASCII\" <q@example.com>", "\"名前 \\\\\" <cjk@example.com>"}
 var badAddrs = []string{"invalid", "", "@", "a@", "two@@example.com", "x y z", "<>", "a@b@c"}
 
 func sp(s string) *string { return &s }
@@ -434,7 +497,9 @@ func genSpec(r *Rng, o genOpts) *MsgSpec {
 			nv = r.Intn(3)
 		}
 		for j := 0; j < nv; j++ {
-			if o.textHeavy || r.Chance(40) {
+			if r.Chance(12) {
+				g.Values = append(g.Values, genFoldEdge(r))
+			} else if o.textHeavy || r.Chance(40) {
 				g.Values = append(g.Values, genText(r, 8))
 			} else {
 				g.Values = append(g.Values, genHeaderValue(r))
@@ -505,7 +570,9 @@ func genSpec(r *Rng, o genOpts) *MsgSpec {
 			p.Enc = sp(encs[r.Intn(len(encs))])
 		}
 		if r.Chance(20) {
-			if o.textHeavy || r.Chance(50) {
+			if r.Chance(10) {
+				p.Desc = genFoldEdge(r)
+			} else if o.textHeavy || r.Chance(50) {
 				p.Desc = genText(r, 6)
 			} else {
 				p.Desc = "A part description"
